@@ -197,6 +197,23 @@ func genC10(g *Gen) {
 			g.end()
 		}
 	}
+	// the same invalid request several times in one process, on different frames: every one of them reports
+	badPats := []string{"%ab(cd", "(", "[a", "a{2", "%*", "\\"}
+	for _, pat := range badPats {
+		for _, cmp := range []string{"like", "ilike"} {
+			g.begin("invalid twice")
+			for k := 0; k < 3; k++ {
+				f := g.do(g.stdNew([]int{4, 0, 2}[k], "ASEX", 8))
+				for _, col := range []string{"S", "E", "X"} {
+					cl := Clause{K: "leaf", Col: toBS(col), CmpK: "str", Cmp: cmp, Arg: &Val{T: "string", S: toBS(pat)}}
+					g.do(Step{Op: "Filter", Recv: f, Clause: &cl})
+				}
+				cl := Clause{K: "not", Subs: []Clause{{K: "leaf", Col: toBS("S"), CmpK: "str", Cmp: cmp, Arg: &Val{T: "string", S: toBS(pat)}}}}
+				g.do(Step{Op: "Filter", Recv: f, Clause: &cl})
+			}
+			g.end()
+		}
+	}
 	// grouper errors
 	for rep := 0; rep < g.pick(6, 40); rep++ {
 		g.begin("bad grouper")
